@@ -172,6 +172,69 @@ def serve (encStatus : WireErr → Bytes) (c : HConn) (p : HProg) : Resp :=
   | .grpc => serveGrpc encStatus false c p
   | .grpcWeb => serveGrpc encStatus true c p
 
+/-! ## errors whose details cannot be put on the wire (fix F38 and the paths next to it) -/
+
+/-- the state of the details of the `*connect.Error` a handler returned: every one can be written;
+    one of them is an `Any` of a type this binary does not know, which protojson cannot render
+    (the binary protobuf form of the gRPC `Status` is not affected); one of them cannot be
+    converted to an `Any` at all (`detailsAsAny` fails) -/
+inductive DetailState where
+  | good | unrenderable | unencodable
+  deriving DecidableEq, Repr
+
+/-- a text the model does not know: the library's own description of an internal failure. No
+    header value the model computes can be this one (`percentEncode` emits printable ASCII). -/
+def unmodelledText : Bytes := [0, 42, 0]
+
+def stripDetails : Option GoErr → Option GoErr
+  | some (.coded e) => some (.coded { e with details := [] })
+  | r => r
+
+/-- `grpcErrorToTrailer` when `grpcStatusFromError` fails: status internal, the failure's text,
+    nothing else (the error's metadata is not merged, no `Grpc-Status-Details-Bin`) -/
+def grpcTrailersUnencodable (userTrailer : Header) : Header :=
+  ((mergeHeaders [] userTrailer).set Gen.hdrGrpcStatus (showDec codeInternal)).set Gen.hdrGrpcMessage unmodelledText
+
+/-- `serveGrpc` with the trailers given -/
+def serveGrpcWith (t : Header) (web : Bool) (c : HConn) (p : HProg) : Resp :=
+  let h0 : Header := [(Gen.hdrContentType, [c.contentType]), (Gen.hdrGrpcAcceptEncoding, [c.names])] ++
+    (if c.respCompression = Gen.compressionIdentity then [] else [(Gen.hdrGrpcEncoding, [c.respCompression])])
+  let h1 := mergeHeaders h0 p.header
+  let frames := p.sends.map (msgFrame c)
+  if web then
+    if p.sends = [] then { status := 200, header := mergeHeaders h1 t, body := [], trailer := [] }
+    else { status := 200, header := h1, body := frames ++ [.webTrailer (sanitizeBlock t)], trailer := [] }
+  else { status := 200, header := h1, body := frames, trailer := t }
+
+def carriesDetails : Option GoErr → Bool
+  | some (.coded _) => true
+  | _ => false
+
+/-- what the handler side writes when the error's details are in state `ds`. Only a coded error
+    has details; with good details this is `serve`. -/
+def serveD (ds : DetailState) (encStatus : WireErr → Bytes) (c : HConn) (p : HProg) : Resp :=
+  if !carriesDetails p.result then serve encStatus c p
+  else match ds with
+    | .good => serve encStatus c p
+    | .unrenderable =>
+      (match c.proto with
+       | .connect => serve encStatus c { p with result := stripDetails p.result }   -- fix F38: written without details
+       | _ => serve encStatus c p)                                                  -- binary Status: nothing to render
+    | .unencodable =>
+      (match c.proto with
+       | .connect =>
+         if c.kind = .unary then { serveConnectUnary c p with body := [] }           -- status and headers are out, the body is not
+         else { serveConnectStream c p with body := p.sends.map (msgFrame c) }       -- no end-of-stream message
+       | .grpc => serveGrpcWith (grpcTrailersUnencodable p.trailer) false c p
+       | .grpcWeb => serveGrpcWith (grpcTrailersUnencodable p.trailer) true c p)
+
+/-- the tree as pinned (before F38): a detail that cannot be rendered made the whole JSON
+    marshalling fail, exactly like one that cannot be encoded -/
+def serveDPinned (ds : DetailState) (encStatus : WireErr → Bytes) (c : HConn) (p : HProg) : Resp :=
+  match ds, c.proto with
+  | .unrenderable, .connect => serveD .unencodable encStatus c p
+  | _, _ => serveD ds encStatus c p
+
 /-! ## client side -/
 
 /-- what the application sees from one call -/
